@@ -22,7 +22,7 @@ UNDECIDED_CLASSES = ("unwind", "unsupported_construct", "missing_definition", "r
 class Harness:
     def __init__(self, name, obligation, label, desc, crate="scylla", carries=True, canary=False,
                  tier="quick", bound=None, solver=None, timeout=None, functions=(), twin=False, search_only=False,
-                 needs_cover=False, unwind_is_violation=False):
+                 needs_cover=False, unwind_is_violation=False, backed_by=None):
         self.name = name              # bare function name of the harness (unique, prefixed cNN_)
         self.obligation = obligation  # obligation id, e.g. C11.shard_of.contract
         self.label = label            # PROVED-C | BOUNDED
@@ -40,6 +40,10 @@ class Harness:
         # (non-termination / input-controlled recursion depth), not a tool limit
         self.unwind_is_violation = unwind_is_violation
         self.needs_cover = needs_cover  # vacuity guard: at least one kani::cover! of the harness must be SATISFIED
+        # id of the Verus obligation that proves the same contract on the extracted source: this harness re-checks it on the
+        # compiled code; if it TIMES OUT while that Verus obligation is discharged in the same run, it is recorded as not
+        # answered instead of making the property undecided (a failure of it still counts)
+        self.backed_by = backed_by
         self.twin = twin              # bounded twin of a Verus contract: runs when Verus cannot decide / reports a violation, and in thorough
 
 
